@@ -12,6 +12,7 @@ CORRS = {
     "tb": corr_tb.tb,
     "k8": corr_k8.k8,
     "k10": corr_k10.k10,
+    "k11": corr_k10.k11,
 }
 
 
@@ -91,7 +92,7 @@ def main(argv):
             return bool(d.get("impl_vs_spec", True))
         if name == "k2":
             return bool(d.get("impl_deeper"))
-        if name in ("cc:k6a", "cc:k6d", "cc:k4acc", "cc:k6build", "cc:k9impl", "k10:build", "k3:native", "tb:run", "tb:opt", "tb:accept", "k8:c13", "k8:c15", "k8:c16"):
+        if name in ("cc:k6a", "cc:k6d", "cc:k4acc", "cc:k6build", "cc:k9impl", "k10:build", "k11:build", "k3:native", "tb:run", "tb:opt", "tb:accept", "k8:c13", "k8:c15", "k8:c16"):
             return True
         if name == "cc:k6e":
             return "Buildable=True" in d.get("model", "") or "Buildable=true" in d.get("model", "")
@@ -120,7 +121,7 @@ def main(argv):
             ctx2 = Ctx(tier, seed + extra)
             sr2 = {}
             for stage, part in P["corr"]:
-                if stage in ("tb", "k8", "k10", "k3"):
+                if stage in ("tb", "k8", "k10", "k11", "k3"):
                     continue  # deterministic stages: nothing new under another seed
                 if stage not in sr2:
                     try:
